@@ -105,6 +105,8 @@ type PAT struct {
 	TSID        uint16     `json:"tsid"`
 	Version     int        `json:"version"`
 	CurrentNext bool       `json:"current_next"`
+	SecNum      int        `json:"section_number,omitempty"`
+	LastSecNum  int        `json:"last_section_number,omitempty"`
 	Entries     []PATEntry `json:"entries"`
 }
 
@@ -114,7 +116,7 @@ func (p *PAT) Section() []byte {
 	if p.CurrentNext {
 		ver |= 1
 	}
-	out := []byte{byte(p.TSID >> 8), byte(p.TSID), ver, 0, 0}
+	out := []byte{byte(p.TSID >> 8), byte(p.TSID), ver, byte(p.SecNum), byte(p.LastSecNum)}
 	for _, e := range p.Entries {
 		out = append(out, byte(e.Program>>8), byte(e.Program), 0xE0|byte(e.PID>>8)&0x1F, byte(e.PID))
 	}
